@@ -31,4 +31,72 @@ def pastedList (img : List (List Int)) (dshape : Int × Int) (flipY flipX : Bool
     (List.range dshape.2.toNat).map fun (dx : Nat) =>
       pasted (Warp.getPx img nodata) flipY flipX roiSrc roiDst nodata dy dx
 
+
+/-! ### `_rio_reproject` (warp.py:163-250): the int8 / bool conversion detour, value level
+
+GDAL's warper has no int8 / bool support: `_alias_or_convert` turns an int8 raster into int16 and a bool raster into
+uint8 with `False, True ↦ 0, 255` (source AND destination, so that a destination that is warped *into* keeps its
+content), `_stretch_nodata` sends a boolean nodata through the same stretch, GDAL warps the work arrays, and the result
+is copied back (`> 127` for bool, `np.copyto(..., casting="unsafe")` = wrap to 8 bits for int8).  Pixel values are
+modelled as integers (bool as 0 / 1). -/
+
+inductive PixT where
+  | int8 | bool | other
+  deriving DecidableEq, Repr
+
+/-- `_alias_or_convert` on one pixel -/
+def toWork : PixT → Int → Int
+  | .bool, v => if v ≠ 0 then 255 else 0
+  | _, v => v
+
+/-- `_stretch_nodata` -/
+def stretchNodata : PixT → Option Int → Option Int
+  | .bool, some v => some (if v ≠ 0 then 255 else 0)
+  | _, nd => nd
+
+/-- `astype(int8)` of an int16 value (`casting="unsafe"`): wrap to 8 bits -/
+def wrap8 (v : Int) : Int := (v + 128) % 256 - 128
+
+/-- copy-back of one pixel -/
+def fromWork : PixT → Int → Int
+  | .bool, v => if v > 127 then 1 else 0
+  | .int8, v => wrap8 v
+  | .other, v => v
+
+/-- the value GDAL initialises / fills with: `dst_nodata`, else (rasterio's default) `src_nodata`, else 0 -/
+def effFill (sn dn : Option Int) : Int :=
+  match dn with
+  | some v => v
+  | none => match sn with | some v => v | none => 0
+
+/-- Nearest-neighbour warp INTO an existing destination (reference semantics of the backend at the working type,
+`Spec/Warp` sampling rule): a destination pixel whose centre maps onto a valid source pixel takes its value; any other
+pixel is filled when `init_dest_nodata` holds and keeps its previous content otherwise.  (GDAL's nudging of valid
+pixels that equal the fill value is not part of this model; the harness keeps such collisions out of the compared
+cases and reports them under a known-finding key.) -/
+def nnPick (shape : Int × Int) (A : Aff) (dy dx : Int) : Option (Int × Int) :=
+  let q := A.apply ((dx : Rat) + 1 / 2, (dy : Rat) + 1 / 2)
+  match Warp.nnIndex shape.1 q.2, Warp.nnIndex shape.2 q.1 with
+  | some iy, some ix => some (iy, ix)
+  | _, _ => none
+
+def gdalNN (src dst : Int → Int → Int) (shape : Int × Int) (A : Aff) (sn dn : Option Int) (init : Bool)
+    (dy dx : Int) : Int :=
+  let rest := if init then effFill sn dn else dst dy dx
+  match nnPick shape A dy dx with
+  | some p => if sn = some (src p.1 p.2) then rest else src p.1 p.2
+  | none => rest
+
+/-- `_rio_reproject(..., resampling=nearest)` for a raster of pixel type `t` -/
+def rioNN (t : PixT) (src dst : Int → Int → Int) (shape : Int × Int) (A : Aff) (sn dn : Option Int) (init : Bool)
+    (dy dx : Int) : Int :=
+  fromWork t (gdalNN (fun i j => toWork t (src i j)) (fun i j => toWork t (dst i j)) shape A
+    (stretchNodata t sn) (stretchNodata t dn) init dy dx)
+
+def rioNNList (t : PixT) (simg dimg : List (List Int)) (shape dshape : Int × Int) (A : Aff) (sn dn : Option Int)
+    (init : Bool) : List (List Int) :=
+  (List.range dshape.1.toNat).map fun (dy : Nat) =>
+    (List.range dshape.2.toNat).map fun (dx : Nat) =>
+      rioNN t (Warp.getPx simg 0) (Warp.getPx dimg 0) shape A sn dn init dy dx
+
 end OdcGeo.C10
